@@ -3,7 +3,8 @@
    Statements about the typed lenient decoder restated from Proofs/TypedDecProofs.v.
    The typed lenient decoding is modelled for the scalar-bodied caveat types in Model.TypedDec and for all other types,
    unregistered caveats and whole sets in Model.TypedDec2 (statements restated from Proofs/TypedDec2*.v); see DESIGN.md
-   section 0 for what the model's caveat type cannot represent (nil vs empty resource-set maps). *)
+   section 0 for what the model's caveat type cannot represent (nil vs empty resource-set maps).  The token-level decoder
+   (Macaroon struct and Nonce, array and map forms) is Model.TokenDec, statements restated from Proofs/TokenDecProofs.v at the end. *)
 From Coq Require Import List Bool NArith ZArith String Permutation Sorted Decimal DecimalString.
 From Mac Require Import Model.Err Model.Caveat Model.Access Model.Prohibits Model.Msgpack Model.Codec Proofs.CodecProofs Proofs.CodecProofs2 Proofs.JsonTypeProofs Generated.Facts.
 Import ListNotations.
@@ -409,3 +410,76 @@ Print Assumptions dec_set_typed_frames.
 Print Assumptions dec_cav_vspan.
 Print Assumptions dec_set_typed_ext_mono.
 Print Assumptions dec_cav_fuel_enough.
+
+(* ---- the token-level lenient decoder (Model.TokenDec, Proofs.TokenDecProofs) *)
+From Mac Require Import Model.TokenDec Proofs.TokenDecProofs.
+
+(* the repaired decoder never yields an old-format nonce with the proof flag set, whatever the wire form *)
+Theorem dec_token_v0_not_proof :
+    forall (ext pz : bool) (b : bytes) (t : token),
+    dec_token_gen false ext pz b = Some t -> tk_ver t = 0%N -> tk_proof t = false.
+Proof. exact (@TokenDecProofs.dec_token_v0_not_proof). Qed.
+
+(* the decoder as it was before 2de874e does (F16) *)
+Theorem legacy_nonce_keeps_proof_refuted :
+    exists t : token,
+      dec_token_gen true true false f16_bytes = Some t /\
+      tk_ver t = 0%N /\
+      tk_proof t = true /\
+      enc_nonce (tk_kid t) (tk_rnd t) (tk_proof t) (tk_ver t) =
+      [146; 196; 1; 107; 196; 16; 0; 1; 2; 3; 4; 5; 6; 7; 8; 9; 10; 11; 12; 13; 14; 15]%N.
+Proof. exact (@TokenDecProofs.legacy_nonce_keeps_proof_refuted). Qed.
+
+Theorem repaired_nonce_on_f16 :
+    exists t : token,
+      dec_token_gen false true false f16_bytes = Some t /\
+      tk_ver t = 0%N /\
+      tk_proof t = false /\
+      dec_token_gen true true false f16_bytes =
+      Some (mk_token (tk_kid t) (tk_rnd t) true 0%N (tk_loc t) (tk_cavs t) (tk_tail t)).
+Proof. exact (@TokenDecProofs.repaired_nonce_on_f16). Qed.
+
+(* round trip of the canonical token encoding, both nonce versions *)
+Theorem dec_token_enc_token :
+    forall (ext pz : bool) (kid rnd : option bytes) (p : bool) (v : N) (loc : string) (cs : list cav)
+      (tl : option bytes) (b : bytes),
+    wf_obin kid -> wf_obin rnd -> wf_obin tl ->
+    v = 0%N \/ v = 1%N -> (v = 0%N -> p = false) ->
+    (N.of_nat (String.length loc) < 2 ^ 32)%N ->
+    Forall wf_cav cs -> Forall canon_cav cs -> (N.of_nat (Datatypes.length cs) < 2 ^ 31)%N ->
+    enc_token kid rnd p v loc cs tl = Some b ->
+    dec_token_gen false ext pz b = Some (mk_token kid rnd p v loc cs tl).
+Proof. exact (@dec_token_enc_token_l). Qed.
+
+(* whatever is accepted is a well-formed token in canonical form *)
+Theorem dec_token_good :
+    forall (ext pz : bool) (b : bytes) (t : token),
+    byte_list b ->
+    (N.of_nat (Datatypes.length b) < 2 ^ 29)%N ->
+    dec_token_gen false ext pz b = Some t -> tok_good t.
+Proof. exact (@dec_token_good_l). Qed.
+
+(* ... and its canonical encoding (what is signed) decodes to exactly that token, the proof flag included *)
+Theorem dec_token_reenc :
+    forall (ext pz : bool) (b : bytes) (t : token),
+    byte_list b ->
+    (N.of_nat (Datatypes.length b) < 2 ^ 29)%N ->
+    dec_token_gen false ext pz b = Some t ->
+    exists b' : bytes, enc_tok t = Some b' /\ dec_token_gen false ext pz b' = Some t.
+Proof. exact (@dec_token_reenc_l). Qed.
+
+Theorem dec_token_reenc_inj :
+    forall (ext pz : bool) (b1 b2 : bytes) (t1 t2 : token),
+    byte_list b1 -> (N.of_nat (Datatypes.length b1) < 2 ^ 29)%N ->
+    byte_list b2 -> (N.of_nat (Datatypes.length b2) < 2 ^ 29)%N ->
+    dec_token_gen false ext pz b1 = Some t1 ->
+    dec_token_gen false ext pz b2 = Some t2 -> enc_tok t1 = enc_tok t2 -> t1 = t2.
+Proof. exact (@TokenDecProofs.dec_token_reenc_inj). Qed.
+
+Print Assumptions dec_token_v0_not_proof.
+Print Assumptions legacy_nonce_keeps_proof_refuted.
+Print Assumptions repaired_nonce_on_f16.
+Print Assumptions dec_token_enc_token.
+Print Assumptions dec_token_good.
+Print Assumptions dec_token_reenc.
+Print Assumptions dec_token_reenc_inj.
